@@ -506,7 +506,7 @@ fn microlp_hang_class(src: &str) -> bool {
         rooc::Linearizer::linearize(model).ok()
     });
     let Ok(Some(lin)) = compiled else { return false };
-    if lin.variables().len() > 12 || lin.constraints().len() > 24 {
+    if lin.variables().len() > 24 || lin.constraints().len() > 48 {
         return false;
     }
     let case = crate::gen::lin::LinCase::from_rooc(&lin);
